@@ -127,7 +127,7 @@ pub fn anchor_main(args: &[String]) -> i32 {
             ));
         }
     }
-    println!("{}", json!({"anchor": i, "key": cfg.key(), "outcome": outcome, "renders": renders}));
+    println!("\n{}", json!({"anchor": i, "key": cfg.key(), "outcome": outcome, "renders": renders}));
     0
 }
 
